@@ -26,8 +26,6 @@ def PV(rate, periods, payment, future=None, type=None):
     if utils.any_is_error((rate, periods, payment, future, type)):
         return error.VALUE
     # Return present value
-    if rate == 0:
-        return -payment * periods - future
     # In decimal arithmetic of 60 and more digits, rounded to a double once at the end.  In doubles
     # every formula has a weak spot: (1+rate)**periods - 1 cancels for small rates, expm1/log1p
     # multiply their rounding by periods*log(1+rate) (hundreds of units in the last place for large
@@ -40,8 +38,12 @@ def PV(rate, periods, payment, future=None, type=None):
         # enough digits for 1 + rate to keep those of a tiny rate
         context.prec = 60 + max(0, -rate_.adjusted())
         try:
-            compound = (1 + rate_) ** periods_
-            result = ((1 - compound) / rate_ * payment_ * (1 + rate_ * type_) - future_) / compound
+            if rate_ == 0:
+                # the linear form; here too payment * periods alone need not be a number that a double holds
+                result = -payment_ * periods_ - future_
+            else:
+                compound = (1 + rate_) ** periods_
+                result = ((1 - compound) / rate_ * payment_ * (1 + rate_ * type_) - future_) / compound
         except decimal.DecimalException:
             # a negative base with a fractional number of periods, a result beyond all bounds
             return error.NUM
